@@ -200,6 +200,9 @@ var univC = []kspec{in(1), arr(in(1)), arr(arr(in(1))), arr(arr(in(1), in(2))), 
 // universe V = few keys, many VALUES: histories here also store nil, false, 0, "" and []
 var univV = []kspec{sym("a"), str("s"), in(1)}
 
+// universe J = keys of different types that are spelled alike (as JSON member names, partly in print)
+var univJ = []kspec{sym("a"), str("a"), in(1), str("1"), ch('x'), str("'x'")}
+
 // universe W = two keys, values that compare equal to each other without being the same value
 var univW = []kspec{sym("a"), in(1)}
 
@@ -288,7 +291,7 @@ const (
 )
 
 type driver interface {
-	reset()                                         // h = (hash)
+	reset(u *universe, pairs []op)                  // h = (hash k v ..) with the given pairs (none: (hash))
 	call(name string, args ...arg) (zygo.Sexp, int) // (name h args...)
 	loopValues() (zygo.Sexp, int)                   // key, value, key, value .. seen by the range macro
 }
@@ -346,10 +349,19 @@ func (d *applyDriver) apply(name string, args []zygo.Sexp) (res zygo.Sexp, st in
 	return v, classify(err)
 }
 
-func (d *applyDriver) reset() {
-	h, st := d.apply("hash", nil)
+func (d *applyDriver) reset(u *universe, pairs []op) {
+	var args []zygo.Sexp
+	for _, o := range pairs {
+		args = append(args, u.keys[o.k])
+		if o.sv != 0 {
+			args = append(args, specialValue(d.env, o.sv))
+		} else {
+			args = append(args, &zygo.SexpInt{Val: o.v})
+		}
+	}
+	h, st := d.apply("hash", args)
 	if st != stOK {
-		panic("(hash) failed")
+		panic("(hash ..) failed")
 	}
 	d.h = h
 }
@@ -389,9 +401,35 @@ func (d *scriptDriver) eval(src string) (zygo.Sexp, int) {
 	return nil, stCrash
 }
 
-func (d *scriptDriver) reset() {
-	if _, st := d.eval("(def h (hash))"); st != stOK {
-		panic("(def h (hash)) failed")
+// the constructor as a script text: keys through the globals k<i>, or -- when every key is a symbol
+// or a string and every value an integer -- written out as (hash a:1 "s":2) / the literal {a:1 "s":2}
+func (d *scriptDriver) reset(u *universe, pairs []op) {
+	literal := len(pairs) > 0
+	for _, o := range pairs {
+		if kd := u.specs[o.k].kind; (kd != 'Y' && kd != 'S') || o.sv != 0 {
+			literal = false
+		}
+	}
+	var parts []string
+	for _, o := range pairs {
+		if literal {
+			parts = append(parts, dstr(u.keys[o.k])+":"+strconv.FormatInt(o.v, 10))
+			continue
+		}
+		parts = append(parts, "k"+strconv.Itoa(o.k))
+		if o.sv != 0 {
+			d.env.AddGlobal("v"+string(o.sv), specialValue(d.env, o.sv))
+			parts = append(parts, "v"+string(o.sv))
+		} else {
+			parts = append(parts, strconv.FormatInt(o.v, 10))
+		}
+	}
+	src := "(def h (hash " + strings.Join(parts, " ") + "))"
+	if literal && len(pairs)%2 == 0 {
+		src = "(def h {" + strings.Join(parts, " ") + "})"
+	}
+	if _, st := d.eval(src); st != stOK {
+		panic(src + " failed")
 	}
 }
 
@@ -664,10 +702,13 @@ func scribble(hs []held) {
 }
 
 // run a history on a fresh hash; returns the observation after the last step
-func runHistory(d driver, u *universe, ops []op, script bool) string {
-	d.reset()
+func runHistory(d driver, u *universe, ops []op, script bool, ctor int) string {
+	d.reset(u, ops[:ctor]) // the first ctor operations (all hset) are the constructor's pairs
 	var hs []held
 	for i, o := range ops {
+		if i < ctor {
+			continue
+		}
 		var st int
 		if o.del {
 			_, st = d.call("hdel", arg{kind: 'k', k: o.k})
@@ -716,7 +757,7 @@ type replayFile struct {
 func main() {
 	a := lib.ParseArgs()
 	out := lib.NewOut(a.Out)
-	out.Rule = "universe A (9 keys: symbols a b, strings s t, ints 1 97, char 'a' (= 97), array [1], int = symbol number of a), universe B (9 keys: arrays [1 97] [1 'a'] [97] ['a'] [], 97, 'a', string s, int = fnv code of s), universe C (5 keys: 1 [1] [[1]] [[1 2]] [1 2]), universe W (2 keys a 1 with the mutually Compare-equal values 97, 'a', 97.0, two hashes, two arrays [1]) and universe V (3 keys a s 1 with the values fresh-int, 0, nil, false, empty string, []): ALL histories of hset/hdel (fresh value per step) up to the length bound, each observed after its last step (so after every step of every history); the key list and every positional pair taken after EVERY intermediate step are held and must read the same at the end, and overwriting the handed-out containers must not change the hash; random long histories observed after every step; a case is non-trivial when the history has at least 2 operations; distinct = distinct (mode, universe, history) inputs"
+	out.Rule = "universe A (9 keys: symbols a b, strings s t, ints 1 97, char 'a' (= 97), array [1], int = symbol number of a), universe B (9 keys: arrays [1 97] [1 'a'] [97] ['a'] [], 97, 'a', string s, int = fnv code of s), universe C (5 keys: 1 [1] [[1]] [[1 2]] [1 2]), universe J (6 keys: symbol a, string a, int 1, string 1, char x, string 'x' -- different keys spelled alike), universe W (2 keys a 1 with the mutually Compare-equal values 97, 'a', 97.0, two hashes, two arrays [1]) and universe V (3 keys a s 1 with the values fresh-int, 0, nil, false, empty string, []): ALL histories of hset/hdel (fresh value per step) up to the length bound, each observed after its last step (so after every step of every history); the key list and every positional pair taken after EVERY intermediate step are held and must read the same at the end, and overwriting the handed-out containers must not change the hash; random long histories observed after every step; a case is non-trivial when the history has at least 2 operations; distinct = distinct (mode, universe, history) inputs"
 	env := zygo.NewZlisp()
 	env.StandardSetup()
 	dflt := &zygo.SexpStr{S: "DFLT"}
@@ -734,7 +775,8 @@ func main() {
 	uC := mkU("C", univC)
 	uV := mkU("V", univV)
 	uW := mkU("W", univW)
-	unis := map[string]*universe{"A": uA, "B": uB, "C": uC, "V": uV, "W": uW}
+	uJ := mkU("J", univJ)
+	unis := map[string]*universe{"A": uA, "B": uB, "C": uC, "V": uV, "W": uW, "J": uJ}
 
 	var cur *universe
 	use := func(u *universe) {
@@ -747,14 +789,19 @@ func main() {
 	}
 	ad := &applyDriver{base: base{env: env, dflt: dflt}, fns: map[string]*zygo.SexpFunction{}}
 	sd := &scriptDriver{base: base{env: env, dflt: dflt}}
-	emit := func(mode string, ops []op) {
+	var emitC func(mode string, ops []op, ctor int)
+	emit := func(mode string, ops []op) { emitC(mode, ops, 0) }
+	emitC = func(mode string, ops []op, ctor int) {
 		var d driver = ad
 		ad.u, sd.u = cur, cur
 		if mode == "S" {
 			d = sd
 		}
-		impl := runHistory(d, cur, ops, mode == "S")
+		impl := runHistory(d, cur, ops, mode == "S", ctor)
 		input := mode + " " + cur.id
+		if ctor > 0 {
+			input += " c" + strconv.Itoa(ctor)
+		}
 		if len(ops) > 0 {
 			input += " " + opsString(ops)
 		}
@@ -782,7 +829,12 @@ func main() {
 			}
 			use(unis[f[1]])
 			var ops []op
+			ctor := 0
 			for _, t := range f[2:] {
+				if t[0] == 'c' {
+					ctor, _ = strconv.Atoi(t[1:])
+					continue
+				}
 				if t[0] == 'd' {
 					k, _ := strconv.Atoi(t[1:])
 					ops = append(ops, op{del: true, k: k})
@@ -797,7 +849,10 @@ func main() {
 					}
 				}
 			}
-			emit(f[0], ops)
+			if ctor > len(ops) {
+				ctor = len(ops)
+			}
+			emitC(f[0], ops, ctor)
 		}
 		out.Close(a.Stats)
 		return
@@ -811,9 +866,15 @@ func main() {
 		nRand, randLen = 600, 80
 	}
 	var enum func(mode string, prefix []op, depth int)
+	ctorBound := 0 // histories up to this length are ALSO run with every leading run of hset as constructor pairs
 	enum = func(mode string, prefix []op, depth int) {
 		if depth == 0 {
 			emit(mode, prefix)
+			if len(prefix) <= ctorBound {
+				for c := 1; c <= len(prefix) && !prefix[c-1].del; c++ {
+					emitC(mode, prefix, c)
+				}
+			}
 			return
 		}
 		v := int64(len(prefix) + 1)
@@ -840,6 +901,13 @@ func main() {
 			enum(mode, nil, d)
 		}
 	}
+	ctorBound = 3
+	if a.Tier == "thorough" {
+		ctorBound = 4
+	}
+	use(uJ)
+	all("A", exA)
+	all("S", exS)
 	use(uA)
 	all("A", exA)
 	all("S", exS)
@@ -872,6 +940,9 @@ func main() {
 		if n%10 == 7 {
 			u = uW
 		}
+		if n%10 == 1 {
+			u = uJ
+		}
 		if cur != u {
 			use(u)
 		}
@@ -899,6 +970,16 @@ func main() {
 				ops = append(ops, op{k: k, v: int64(i + 1)})
 			}
 			emit(mode, ops)
+			if i == 5 || i == L-1 {
+				// the same history with its leading run of hset (at most 4) given to the constructor
+				c := 0
+				for c < len(ops) && c < 4 && !ops[c].del {
+					c++
+				}
+				if c > 0 {
+					emitC(mode, ops, c)
+				}
+			}
 		}
 	}
 	out.Extra["exhaustive_length_universe_A_applied"] = exA
